@@ -452,6 +452,12 @@ def structural(ctx0):
                 nf = lincmp_c(g.node(t).ast, al, negate=neg)
                 if nf is not None and nf[0] == frozenset({(L, 1)}):
                     big.append((t, lab, nf[1]))
+        if big:
+            # not a verdict: the sender does not bound what it frames, so payloads above this limit - however validly framed - are refused by a peer running
+            # the same code; which limit is right above the RFC minimum is the implementation's choice (outside the clause decided here)
+            ctx0.note(f"s/length/limit: getPacket accepts packet_length <= {min(c - 1 for t, lab, c in big)} (RFC 4253 6.1 requires >= 35000); sendPacket puts no bound on the "
+                      "payload it frames, so larger payloads are answered with DISCONNECT 'bad packet length' - sizes above the receiver's limit are outside the decided clause")
+            ctx.extra["receiver_packet_length_limit"] = min(c - 1 for t, lab, c in big)
         ctx.check(bool(big) and all(c - 1 >= 35000 for t, lab, c in big), "length/limit-admits-rfc-minimum", q,
                   f"the packet length limit ({[c - 1 for t, lab, c in big]}) is missing or below the 35000 bytes every implementation must accept (RFC 4253 6.1)")
         for t, lab, c in big:
@@ -695,6 +701,51 @@ def structural(ctx0):
             ctx.check(w is None, "kex/blocked-before-write", q + " | <transport.write>",
                       "a message can reach transport.write although a key exchange is in progress and the message type is not allowed during key exchange "
                       "(RFC 4253 7.1): it is encrypted with keys the peer is about to replace", witness=g.describe(w))
+    with abstain(ctx0, 's/kex/negotiation-slots', 'kex/both-ends-agree (bounded)'):
+        # the eight negotiated slots (kex, host key, cipher / MAC / compression per direction) are chosen by ONE rule: written as calls of the same
+        # function with the own and the peer's list in the same argument roles.  A slot computed differently (first of OUR list regardless of role ...)
+        # makes the two ends pick different algorithms for it.
+        kf = ctx.func(TR, "SSHTransportBase.ssh_KEXINIT")
+        slots = {}
+        for st in statements(kf):
+            if isinstance(st, ast.Assign) and len(st.targets) == 1 and isinstance(st.targets[0], ast.Attribute) and isinstance(st.targets[0].value, ast.Name) \
+                    and st.targets[0].value.id == "self":
+                nm = st.targets[0].attr
+                if nm in ("kexAlg", "keyAlg", "outgoingCompressionType", "incomingCompressionType"):
+                    slots[nm] = st.value
+                if nm == "nextEncryptions" and isinstance(st.value, ast.Call) and len(st.value.args) == 4:
+                    for i_, a_ in enumerate(st.value.args):
+                        slots[f"nextEncryptions[{i_}]"] = a_
+        ctx.need(len(slots) == 8 and all(isinstance(v, ast.Call) and len(v.args) == 2 and not v.keywords for v in slots.values()),
+                 "ssh_KEXINIT: eight slots each negotiated by a two-argument call")
+
+        def role(a, depth=0):
+            if isinstance(a, ast.Name) and depth < 3:
+                defs_ = [v for st_ in statements(kf) if isinstance(st_, ast.Assign) for t_, v in assigned_pairs(st_) if isinstance(t_, ast.Name) and t_.id == a.id and v is not None]
+                if len(defs_) == 1:
+                    return role(defs_[0], depth + 1)
+            if any(isinstance(x, ast.Attribute) and isinstance(x.value, ast.Name) and x.value.id == "self" and x.attr.startswith("supported") for x in ast.walk(a)):
+                return "own list"
+            if isinstance(a, ast.Subscript) and isinstance(a.value, ast.Name):
+                return f"{a.value.id}[..]"
+            return "peer list"
+
+        def shape(v):
+            r = [role(a) for a in v.args]
+            # indexed tuples built for the purpose (client[i], server[i]) keep their names; direct operands are own / peer
+            return (src(v.func), tuple(r))
+        shapes = {k: shape(v) for k, v in slots.items()}
+        # lists taken from the peer's message by index (outs[0], ins[1] ...) are peer lists
+        norm_ = {k: (fn_, tuple("peer list" if r_.endswith("[..]") and r_[:-4] in ("outs", "ins") else r_ for r_ in rs)) for k, (fn_, rs) in shapes.items()}
+        kinds = {}
+        for k, sh in norm_.items():
+            kinds.setdefault(sh, []).append(k)
+        major = max(kinds.values(), key=len)
+        odd = sorted(k for sh, ks in kinds.items() if ks is not major for k in ks)
+        ctx.check(len(kinds) == 1, "kex/slots-negotiated-alike", QT + "ssh_KEXINIT | <the eight negotiated slots>",
+                  f"{odd} are negotiated as {[f'{norm_[k][0]}({', '.join(norm_[k][1])})' for k in odd][:2]} while the other slots use "
+                  f"{norm_[major[0]][0]}({', '.join(norm_[major[0]][1])}): the two ends apply different rules to these name-lists and can pick different algorithms "
+                  "(RFC 4253 7.1: for every list, the first algorithm of the client's list that the server supports)")
     with ctx.section('tables'):
         ca = class_assigns(ctx.cls(TR, "SSHTransportBase"))
         ccls = ctx.cls(TR, "SSHCiphers")
